@@ -183,7 +183,29 @@ def ch_bound(ch):
     return BOUND[core.TIER]
 
 
-def work(pair):
+def finish_replay(pid, path, p):
+    """Common tail of --replay: report whether the recorded case still violates the property."""
+    if p.violations:
+        for group, example, what, _ in p.violations:
+            print("VIOLATION property=%s replay=%s" % (pid, path))
+            print("  what: %s" % what)
+            print("  key:  %s|%s" % (group, example))
+        return 1
+    print("%s replay: the recorded case does not violate the property on this tree" % pid)
+    return 0
+
+
+def replay(path):
+    import json
+    d = json.load(open(path))
+    r = d["replay"]
+    if d.get("tier") in BOUND:
+        core.TIER = d["tier"]          # the horizon depends on the tier's deviation bound
+    p = work((tuple(r["shapes"][0]), tuple(r["shapes"][1])), replay=r["choices"])
+    return finish_replay("C36", path, p)
+
+
+def work(pair, replay=None):
     cshape, sshape = pair
     init()
     p = core.Part()
@@ -208,7 +230,8 @@ def work(pair):
                                                                 "/".join(map(str, sshape)) or "-",
                                                                 "".join(x[0] for x in log) or "-", ",".join(answers) or "-"),
                         "TcpClientStack -> %s, TcpServerStack -> %s: %s" % (payloads(cshape, ALPHA), payloads(sshape, BETA), what),
-                        dict(client_packets=[x.decode() for x in payloads(cshape, ALPHA)],
+                        dict(shapes=[list(cshape), list(sshape)],
+                             client_packets=[x.decode() for x in payloads(cshape, ALPHA)],
                              server_packets=[x.decode() for x in payloads(sshape, BETA)],
                              service_order=log, choices=ch.choices, socket_answers_at_choice_points=answers,
                              double_log=fn.trace(40), what=what,
@@ -216,7 +239,11 @@ def work(pair):
                                  "connect; transmit() the packets; then service the sides in the listed order")))
         return res
 
-    st = core.dfs(run, bound=bound)
+    if replay is not None:
+        run(core.Chooser(replay))
+        st = dict(executions=1, max_points=len(replay))
+    else:
+        st = core.dfs(run, bound=bound)
     for kind in sorted(best):
         p.violation(*best[kind][1])
     for h in states:
@@ -229,6 +256,9 @@ def work(pair):
 
 
 def run():
+    import os
+    if os.environ.get("VERIF_REPLAY"):
+        return replay(os.environ["VERIF_REPLAY"])
     net.selftest()
     ck = core.Check("C36", META["level"], META["technique"])
     pairs = shape_pairs(core.TIER)
